@@ -120,6 +120,16 @@ theorem strip_token_nl (v : Str) (hv : NoSpace v) : strip (v ++ ['\n']) = v := b
     rw [hdr, List.dropWhile_cons_of_neg (by simp [hd]), ← hdr]
     simp
 
+theorem dropWhile_noSpace (v : Str) (hv : NoSpace v) : v.dropWhile isSpace = v := by
+  cases v with
+  | nil => rfl
+  | cons c v => rw [List.dropWhile_cons_of_neg (by simp [hv c (by simp)])]
+
+theorem strip_noSpace (v : Str) (hv : NoSpace v) : strip v = v := by
+  unfold strip lstrip rstrip
+  rw [dropWhile_noSpace v hv, dropWhile_noSpace v.reverse (fun c hc => hv c (List.mem_reverse.mp hc))]
+  simp
+
 /-! ### decimal integers -/
 
 theorem natStr_isDigit (n : Nat) : ∀ c ∈ natStr n, c.isDigit = true :=
@@ -424,5 +434,15 @@ theorem setText_name (v : Str) : c.setText "name".toList v = { c with name := v 
 theorem setNodata_value (v : NVal ν) : c.setNodata "nodata_value".toList v = { c with nodataValue := some v } := by
   unfold Config.setNodata; rw [if_neg (by decide), if_pos rfl]
 end SetLemmas
+
+/-- a grid as the property quantifies over it: admissible header fields, default `mindata/maxdata`, an
+`nrows × ncols` array of words of the grid's dtype -/
+structure GridOK {ν : Type} (io : NumIO ν) (g : Grid ν) : Prop where
+  header : HeaderOK io g
+  default_bounds : g.lo = none ∧ g.hi = none
+  rows : (g.data.length : Int) = g.nrows
+  cols : ∀ r ∈ g.data, (r.length : Int) = g.ncols
+  words : ∀ r ∈ g.data, ∀ w ∈ r, w < wordBound g.dtype
+
 
 end HydroVerif.C13
